@@ -394,8 +394,13 @@ pub fn gen_lifecycle(rng: &mut Rng, spec: SpecId, n_txs: usize) -> Block {
 }
 
 fn auth(authority: Address, target: Address, nonce: u64) -> Either<revm_context::transaction::SignedAuthorization, RecoveredAuthorization> {
+    auth_chain(authority, target, nonce, 0)
+}
+
+/// An authorisation tuple for a given chain id (0 = any chain, 1 = this chain, else foreign).
+fn auth_chain(authority: Address, target: Address, nonce: u64, chain_id: u64) -> Either<revm_context::transaction::SignedAuthorization, RecoveredAuthorization> {
     Either::Right(RecoveredAuthorization::new_unchecked(
-        Authorization { chain_id: U256::ZERO, address: target, nonce },
+        Authorization { chain_id: U256::from(chain_id), address: target, nonce },
         RecoveredAuthority::Valid(authority),
     ))
 }
@@ -482,6 +487,33 @@ pub fn gen_code(rng: &mut Rng, spec: SpecId, n_txs: usize) -> Block {
                     auth_nonce_guess = nonce + 1;
                 }
                 own_next = nonce + 1;
+                b.nonces.insert(authority, auth_nonce_guess);
+            }
+            9 if prague && rng.chance(1, 2) => {
+                // the authority sponsors its own authorisation: the tuple names the nonce the
+                // account has after the transaction's own bump; a tuple for a foreign chain is
+                // skipped by revm before its nonce is looked at and consumes nothing
+                let chain = pick(rng, &[0u64, 1, 5, 5]);
+                let target = pick(rng, &[x, y]);
+                let j = b.tx(rng, authority, TxKind::Call(from), U256::ZERO, vec![], 500_000, format!("7702 self-sponsored auth -> {target:#x} chain {chain}"));
+                b.txs[j].nonce = auth_nonce_guess;
+                auth_nonce_guess += 1;
+                b.txs[j].tx_type = 4;
+                b.txs[j].authorization_list = vec![auth_chain(authority, target, auth_nonce_guess, chain)];
+                if chain != 5 {
+                    auth_nonce_guess += 1;
+                }
+                if b.txs[j].gas_priority_fee.is_none() {
+                    b.txs[j].gas_priority_fee = Some(0);
+                }
+                if b.txs[j].gas_price < b.basefee as u128 {
+                    b.txs[j].gas_price = b.basefee as u128;
+                }
+                // and its next own transaction
+                let k = b.transfer(rng, authority, from, 1);
+                b.txs[k].nonce = auth_nonce_guess;
+                auth_nonce_guess += 1;
+                own_next = auth_nonce_guess;
                 b.nonces.insert(authority, auth_nonce_guess);
             }
             8 | 9 if prague => {
@@ -1104,6 +1136,22 @@ pub fn standard_precompiles() -> Vec<(Address, DynParallelPrecompile)> {
             }
             ok(r, 10)
         })),
+        // 8: what an implementation does with a facade error is its own business — the adapter must
+        // still report the FACADE's fault. Mode (first calldata word): 0 answer a facade error
+        // with an own fatal error, 1 with an own halt, 2 propagate it, 3 ignore it and return Ok.
+        (precompile_addr(8), DynParallelPrecompile::new(PrecompileId::Custom("error-replacer".into()), move |input| {
+            let mut st = Probe::new(input);
+            let mode = word(st.input.data(), 0);
+            let r = st.input.reservoir();
+            let res = st.sstore(holder(), U256::from(11u64), U256::from(1u64));
+            match (res, mode.to::<u64>()) {
+                (Ok(()), _) => ok(r, 10),
+                (Err(_), 0) => Err(ParallelPrecompileError::Fatal(PrecompileError::Fatal("implementation's own fatal error".into()))),
+                (Err(_), 1) => Err(ParallelPrecompileError::Halt(PrecompileHalt::other_static("implementation's own halt"))),
+                (Err(e), 2) => Err(e),
+                (Err(_), _) => ok(r, 10),
+            }
+        })),
         // 7: reads the balance of an account that is still cold in this transaction through the
         // facade and records it; callers read the same account again afterwards (both reads must
         // see one version, and the facade read must be validated like an opcode read)
@@ -1122,12 +1170,27 @@ pub fn standard_precompiles() -> Vec<(Address, DynParallelPrecompile)> {
     ]
 }
 
-fn precompile_builder(rng: &mut Rng, spec: SpecId, n_eoas: usize) -> Builder {
+pub fn precompile_builder(rng: &mut Rng, spec: SpecId, n_eoas: usize) -> Builder {
     let mut b = Builder::new(rng, spec, n_eoas);
     b.setup_coinbase(rng);
     b.db.insert_contract(holder(), vec![0x00], U256::from(1000u64), &[(0, 7), (1, 1), (2, 2)]);
     b.db.insert_eoa(contract(41), U256::from(3u64), 0);
     b.precompiles = standard_precompiles();
+    // calls precompile 8 with mode = first calldata word, statically iff the second word is set;
+    // stores whether the call succeeded
+    b.db.insert_contract(
+        contract(48),
+        asm::assemble(&[
+            Stmt::If(
+                Expr::Cd(1),
+                vec![Stmt::Call { kind: CallKind::StaticCall, to: addr(precompile_addr(8)), value: c(0), arg: Some(Expr::Cd(0)), result_slot: Some(0), gas: Some(60_000) }],
+                vec![Stmt::Call { kind: CallKind::Call, to: addr(precompile_addr(8)), value: c(0), arg: Some(Expr::Cd(0)), result_slot: Some(0), gas: Some(60_000) }],
+            ),
+            Stmt::Sstore(c(1), c(7)),
+        ]),
+        U256::ZERO,
+        &[(0, 5)],
+    );
     // facade balance read of a cold account, then the opcode reads the same account
     b.db.insert_contract(
         contract(46),
